@@ -79,17 +79,14 @@ Theorem C12_task_skipped_refuted :
     agrees (run_store (records_from 0 steps)) (replay (run_log (records_from 0 steps))) x = false
     /\ sget x (run_store (records_from 0 steps)) = Some (SKIPPED, true)
     /\ rstatus (replay (run_log (records_from 0 steps))) x = Some RUNNING.
-Proof.
-  intros H. exists [LStartStage 0; LStartTask 0; LCompleteTask 0 SKIPPED], (ETask 0).
-  unfold records_from, record_of. rewrite H. vm_compute. repeat split.
-Qed.
+Proof. exact task_skipped_refuted. Qed.
 
 Theorem C12_task_skipped_at_start_refuted :
   exists steps x,
     agrees (run_store (records_from 0 steps)) (replay (run_log (records_from 0 steps))) x = false
     /\ sget x (run_store (records_from 0 steps)) = Some (SKIPPED, true)
     /\ rstatus (replay (run_log (records_from 0 steps))) x = None.
-Proof. exists [LStartStage 0; LSkipTaskAtStart 0], (ETask 0). vm_compute. repeat split. Qed.
+Proof. exact task_skipped_at_start_refuted. Qed.
 
 Print Assumptions C12_as_of.
 Print Assumptions C12_as_of_positive.
